@@ -392,6 +392,10 @@ def harnesses(tier):
         hs.append(Harness("brew_with_mokapot_Model[n=%d,folds=%d]" % (n, folds), cfg, sym_real_model, real="real_model", functions=[B.brew, B._fit_model, B._predict, M.Model.fit, M.Model.decision_function, M._find_hyperparameters],
                           bounds=dict(N=n, folds=folds, max_iter=1), stubs=["estimator -> recording scikit-learn estimator (per OBJECT: rows fitted on, rows scored)", "sklearn.base.clone -> a new estimator object", "tdc -> q-values by the C01 formula", "as the other C02 harnesses"],
                           assumptions=["alternating labels, distinct spectra in a fixed hash order (fold layout: other harnesses)", "one training iteration, shuffling off"], sample_rate=0.1))
+    # fold models re-used on the data they were trained on (documented use; CLI --save_models / --load_models): the folds must
+    # hold the same PSMs whatever the seed of the second run - harness shared with C08
+    from checks import c08
+    hs += c08.harnesses(tier, for_c02=True)
     return hs
 
 
@@ -597,4 +601,4 @@ def _leaks(log, keys, split_rec, folds=None):
     return None
 
 
-REAL = {"brew": real_brew, "real_model": real_real_model}
+REAL = {"brew": real_brew, "real_model": real_real_model, "rerun": lambda cfg, inp: __import__("checks.c08", fromlist=["x"]).real_rerun(cfg, inp)}
